@@ -57,6 +57,7 @@ def errJ : Err → Json
   | .attributeError => .str "AttributeError"
   | .keyError => .str "KeyError"
   | .assertionError => .str "AssertionError"
+  | .typeError => .str "TypeError"
 
 def pairJ (p : Nat × Nat) : Json := lJ nJ [p.1, p.2]
 
